@@ -201,6 +201,16 @@ def gen_spec(seed, index, tier):
         for pos, k in enumerate(forced[1]):
             if pos < len(steps):
                 steps[pos] = _mk_step(ops, A[k], 0.1)
+    if base is not None and ops.chance(0.15):
+        # queries on a shape with history: one to three mutators before / between queries;
+        # after each one the reference snapshot and the hand-out registry start afresh
+        try:
+            for m in history.gen_steps(ops.sub("mut"), gen.build(base), ops.randint(1, 3),
+                                       ext_range=(0.3 if cls == "Polyhedron" else 1e-2, 300.0)):
+                steps.insert(ops.randint(0, len(steps)),
+                             {"op": "mutate", "name": "-", "variant": "", "m": m})
+        except Exception:  # noqa: BLE001
+            pass
     return {"property": PROP, "index": index, "seed": seed, "base": base, "steps": steps,
             "cfg": {"bufsize": ops.choice([16, 512, 8192])}}
 
@@ -208,9 +218,11 @@ def gen_spec(seed, index, tier):
 def sample(spec):
     b = spec.get("base") or {}
     return {"base": {k: b.get(k) for k in ("cls", "family") if k in b},
-            "steps": [{k: s[k] for k in ("op", "name", "variant", "repeat", "fs_faults",
-                                         "solver_script") if s.get(k) not in (None, "", [])}
-                      for s in spec["steps"]]}
+            "steps": [({k: s[k] for k in ("op", "name", "variant", "repeat", "fs_faults",
+                                          "solver_script") if s.get(k) not in (None, "", [])}
+                       if s["op"] != "mutate" else
+                       {"op": "mutate", "m": {k: s["m"][k] for k in ("op", "prop", "name", "arg")
+                                              if k in s["m"]}}) for s in spec["steps"]]}
 
 
 # --------------------------------------------------------------------------
@@ -379,8 +391,31 @@ def execute(spec, world):
     registry = []  # (step index, op name, path, reference, frozen copy)
     prev = "^"
     bufsize = spec.get("cfg", {}).get("bufsize", 8192)
+    k0 = 0  # index of the first step after the last mutation
     for si, st in enumerate(spec["steps"]):
         C["steps"] += 1
+        if st["op"] == "mutate":
+            r = history.apply(obj, st["m"], world)
+            C["mutations_between_queries_" + r["outcome"]] += 1
+            log.add("mutate", si, st["m"].get("prop") or st["m"].get("name"), r["outcome"])
+            try:
+                g = history.geometry(obj)
+                usable = all(k == "faces" or np.all(np.isfinite(np.asarray(v, float)))
+                             for k, v in g.items())
+            except Exception:  # noqa: BLE001
+                usable = False
+            if not usable:
+                C["state_after_mutation_unusable"] += 1
+                break
+            probes = observe.build_probes(obj.vertices) if hasattr(obj, "vertices") else probes
+            snap0, skip0 = observe_clone(world, obj, probes)
+            snap_prev, skip_prev = snap0, skip0
+            L = observe.length_scale(snap0)
+            tol_geo = 1e-12 * L
+            registry = []
+            k0 = si + 1
+            prev = "mutate"
+            continue
         qname = "%s:%s%s" % (st["op"], st["name"], ("/" + st["variant"]) if st["variant"] else "")
         res["sets"]["queries"].add("%s:%s" % (cls, qname))
         res["sets"]["pairs"].add("%s:%s>%s" % (cls, prev, qname))
@@ -441,7 +476,7 @@ def execute(spec, world):
         if not d:
             # drift since the start: one allowance of last-digit rounding per operation
             d = observe.diff_unchanged(snap0, snap1, nbase=probes["n_base"],
-                                       skip=skip0 | skip1 | skip_q, ops=si + 1)
+                                       skip=skip0 | skip1 | skip_q, ops=si - k0 + 1)
         snap_prev, skip_prev = snap1, skip1
         if d:
             res["violations"].append(violation(
@@ -536,6 +571,6 @@ def simplify(spec):
             yield c
     from .c08 import simplify as s8
 
-    for c in s8(spec):
+    for c in s8(spec) if not any(x["op"] == "mutate" for x in spec["steps"]) else []:
         if c.get("base") != spec.get("base"):
             yield c
